@@ -266,6 +266,152 @@ Theorem C14_last : forall (A : Type) (l : list A),
 Proof. exact @last_correct. Qed.
 Print Assumptions C14_last.
 
+(* ---- Call logs: which calls of the callback are made, in which order ----
+   [f_calls] is the loop of f with one more local holding the arguments of every call of the
+   callback (Slices/Func.v, "Call logs"); its first component is f's result.
+   The property text fixes the calls for MapErr (C14_map_err_* above: the third component),
+   Fold and FoldReverse. For the other functions it fixes only the result; the theorems
+   below describe the code as it is (and the harness does not fail an implementation whose
+   calls differ, see bin/props/C14.json). *)
+
+(* Fold: acc(state so far, element) once per element, first to last *)
+Theorem C14_fold_calls : forall (A State : Type) (l : list A) (seed : State) (acc : State -> A -> State),
+  fold_calls l seed acc = (fold_left acc l seed, fold_trace acc seed l).
+Proof. exact @fold_calls_correct. Qed.
+Print Assumptions C14_fold_calls.
+
+(* FoldReverse: the same over the reversed slice, i.e. last element down to the first *)
+Theorem C14_fold_reverse_calls : forall (A State : Type) (l : list A) (seed : State) (acc : State -> A -> State),
+  foldreverse_calls l seed acc = (Ok (fold_left acc (rev l) seed), fold_trace acc seed (rev l)).
+Proof. exact @foldreverse_calls_correct. Qed.
+Print Assumptions C14_fold_reverse_calls.
+
+(* the logged loops return what the plain loops return *)
+Theorem C14_calls_same_results : forall (A : Type) (l : list A) (f : A -> bool) (v : A) (equals : A -> A -> bool),
+  fst (indexfunc_calls l f) = indexfunc l f /\ fst (any_calls l f) = any l f /\ fst (all_calls l f) = all l f /\
+  fst (containsfunc_calls l v equals) = containsfunc l v equals /\
+  fst (distinctfunc_calls l equals) = distinctfunc l equals.
+Proof.
+  exact (fun A l f v equals => conj (indexfunc_calls_fst l f) (conj (any_calls_fst l f) (conj (all_calls_fst l f)
+           (conj (containsfunc_calls_fst l v equals) (distinctfunc_calls_fst l equals))))).
+Qed.
+Print Assumptions C14_calls_same_results.
+
+(* IndexFunc, Any, All, ContainsFunc stop at the first decisive element: the callback sees the
+   input up to and including it, in order, and nothing after it; all of the input when there is none *)
+Theorem C14_index_func_calls_none : forall (A : Type) (l : list A) (f : A -> bool),
+  (forall x, In x l -> f x = false) -> indexfunc_calls l f = ((-1)%Z, l).
+Proof. exact @indexfunc_calls_none. Qed.
+Print Assumptions C14_index_func_calls_none.
+
+Theorem C14_index_func_calls_first : forall (A : Type) (pre : list A) (x : A) (post : list A) (f : A -> bool),
+  (forall y, In y pre -> f y = false) -> f x = true ->
+  indexfunc_calls (pre ++ x :: post) f = (Z.of_nat (length pre), pre ++ [x]).
+Proof. exact @indexfunc_calls_first. Qed.
+Print Assumptions C14_index_func_calls_first.
+
+Theorem C14_any_calls_none : forall (A : Type) (l : list A) (cond : A -> bool),
+  (forall x, In x l -> cond x = false) -> any_calls l cond = (false, l).
+Proof. exact @any_calls_none. Qed.
+Print Assumptions C14_any_calls_none.
+
+Theorem C14_any_calls_first : forall (A : Type) (pre : list A) (x : A) (post : list A) (cond : A -> bool),
+  (forall y, In y pre -> cond y = false) -> cond x = true ->
+  any_calls (pre ++ x :: post) cond = (true, pre ++ [x]).
+Proof. exact @any_calls_first. Qed.
+Print Assumptions C14_any_calls_first.
+
+Theorem C14_all_calls_all : forall (A : Type) (l : list A) (cond : A -> bool),
+  (forall x, In x l -> cond x = true) -> all_calls l cond = (true, l).
+Proof. exact @all_calls_all. Qed.
+Print Assumptions C14_all_calls_all.
+
+Theorem C14_all_calls_first : forall (A : Type) (pre : list A) (x : A) (post : list A) (cond : A -> bool),
+  (forall y, In y pre -> cond y = true) -> cond x = false ->
+  all_calls (pre ++ x :: post) cond = (false, pre ++ [x]).
+Proof. exact @all_calls_first. Qed.
+Print Assumptions C14_all_calls_first.
+
+(* equals is called as equals(element, value) *)
+Theorem C14_contains_func_calls_none : forall (A : Type) (l : list A) (value : A) (equals : A -> A -> bool),
+  (forall x, In x l -> equals x value = false) ->
+  containsfunc_calls l value equals = (false, map (fun v => (v, value)) l).
+Proof. exact @containsfunc_calls_none. Qed.
+Print Assumptions C14_contains_func_calls_none.
+
+Theorem C14_contains_func_calls_first :
+  forall (A : Type) (pre : list A) (x : A) (post : list A) (value : A) (equals : A -> A -> bool),
+  (forall y, In y pre -> equals y value = false) -> equals x value = true ->
+  containsfunc_calls (pre ++ x :: post) value equals = (true, map (fun v => (v, value)) (pre ++ [x])).
+Proof. exact @containsfunc_calls_first. Qed.
+Print Assumptions C14_contains_func_calls_first.
+
+(* Map and Filter call their callback once per element, first to last *)
+Theorem C14_map_calls : forall (A B : Type) (zero : B) (l : list A) (conv : A -> B),
+  map_calls zero l conv = (Ok (map conv l), l).
+Proof. exact @map_calls_correct. Qed.
+Print Assumptions C14_map_calls.
+
+Theorem C14_filter_calls : forall (A : Type) (l : list A) (p : A -> bool), filter_calls l p = (filter p l, l).
+Proof. exact @filter_calls_correct. Qed.
+Print Assumptions C14_filter_calls.
+
+(* DistinctFunc (any equals): for the next element x one ContainsFunc over the elements kept so
+   far, i.e. equals(kept, x) for the kept elements in order up to the first one equal to x *)
+Theorem C14_distinct_func_calls : forall (A : Type) (l : list A) (x : A) (equals : A -> A -> bool),
+  distinctfunc_calls [] equals = ([], []) /\
+  distinctfunc_calls (l ++ [x]) equals =
+    (distinctfunc (l ++ [x]) equals,
+     snd (distinctfunc_calls l equals) ++ snd (containsfunc_calls (distinctfunc l equals) x equals)).
+Proof. exact @distinctfunc_calls_snoc. Qed.
+Print Assumptions C14_distinct_func_calls.
+
+(* TrimLeftFunc asks about the removed prefix and the first element it keeps; TrimRightFunc the
+   same from the end; TrimFunc trims the right end first, then the left end of what is left *)
+Theorem C14_trim_left_func_calls : forall (A : Type) (l : list A) (unwanted : A -> bool),
+  trimleftfunc_calls l unwanted = (drop_while unwanted l, take_while unwanted l ++ firstn 1 (drop_while unwanted l)).
+Proof. exact @trimleftfunc_calls_correct. Qed.
+Print Assumptions C14_trim_left_func_calls.
+
+Theorem C14_trim_right_func_calls : forall (A : Type) (l : list A) (unwanted : A -> bool),
+  trimrightfunc_calls l unwanted =
+  (Ok (drop_while_end unwanted l), take_while unwanted (rev l) ++ firstn 1 (drop_while unwanted (rev l))).
+Proof. exact @trimrightfunc_calls_correct. Qed.
+Print Assumptions C14_trim_right_func_calls.
+
+Theorem C14_trim_func_calls : forall (A : Type) (l : list A) (unwanted : A -> bool),
+  trimfunc_calls l unwanted =
+  (Ok (trim_ref unwanted l),
+   (take_while unwanted (rev l) ++ firstn 1 (drop_while unwanted (rev l))) ++
+   (take_while unwanted (drop_while_end unwanted l) ++ firstn 1 (trim_ref unwanted l))).
+Proof. exact @trimfunc_calls_correct. Qed.
+Print Assumptions C14_trim_func_calls.
+
+(* take_while: the longest prefix of unwanted elements (what drop_while drops) *)
+Theorem C14_take_while : forall (A : Type) (p : A -> bool) (l : list A),
+  take_while p l ++ drop_while p l = l /\ forallb p (take_while p l) = true.
+Proof. exact @take_drop_while. Qed.
+Print Assumptions C14_take_while.
+
+Example C14_calls_example :
+  (let even (v : Z) := (v mod 2 =? 0)%Z in
+   (* hypotheses of the none / first theorems, and what the logs are *)
+   (forall y, In y [1; 3]%Z -> even y = false) /\ even 4%Z = true /\
+   any_calls [1; 3; 4; 5; 6]%Z even = (true, [1; 3; 4]%Z) /\
+   indexfunc_calls [1; 3; 4; 5; 6]%Z even = (2%Z, [1; 3; 4]%Z) /\
+   all_calls [4; 6; 1; 8]%Z even = (false, [4; 6; 1]%Z) /\
+   any_calls [1; 3]%Z even = (false, [1; 3]%Z) /\
+   trimfunc_calls [2; 1; 2; 3; 4; 6]%Z even = (Ok [1; 2; 3]%Z, [6; 4; 3; 2; 1]%Z)) /\
+  containsfunc_calls [5; 7; 9]%Z 7%Z Z.eqb = (true, [(5, 7); (7, 7)]%Z) /\
+  fold_calls [1; 2; 3]%Z 5%Z (fun s v => (s * 2 + v)%Z) = (51%Z, [(5, 1); (11, 2); (24, 3)]%Z) /\
+  foldreverse_calls [1; 2; 3]%Z 5%Z (fun s v => (s * 2 + v)%Z) = (Ok 57%Z, [(5, 3); (13, 2); (28, 1)]%Z) /\
+  distinctfunc_calls [1; 2; 1; 3]%Z Z.eqb = ([1; 2; 3]%Z, [(1, 2); (1, 1); (1, 3); (2, 3)]%Z).
+Proof.
+  split; [|vm_compute; repeat split; reflexivity].
+  split; [|vm_compute; repeat split; reflexivity].
+  intros y [<-|[<-|[]]]; reflexivity.
+Qed.
+
 (* ---- map helpers: for every order in which range may visit the map ---- *)
 
 Theorem C14_map_contains_value : forall (K : Type) (EqK : EqDecision K) (CK : Countable K) (V : Type)
